@@ -225,9 +225,9 @@ def run_case(res, case, verbose=False):
                                                       sim.indications[prev['ind_n']:]), case)
     else:
         res.count('oracle.stop-returns')
-        if not sim.final.get('killed_flag'):
+        if not sim.kill_returns():
             res.violation('stop-not-signalled', 'C13.stop',
-                          '%s: run() returned but the termination event was not set' % where, case)
+                          '%s: run() returned but provider.kill() does not return' % where, case)
     c05.named_assertions(res, case, sim, 'C13')
 
 
